@@ -127,9 +127,14 @@ def run_case(case, rec=None):
         if changed:
             raise Violation("C05:source-files-changed", changed, "source files byte-identical")
         new = sorted(set(dig_after) - set(dig_before))
-        exp_new = ["merged.ih5"] + (["merged.ih5mf.json"] if cls is H.IH5MFRecord else [])
+        src_has_mf = "ih5mf_v01" in (meta_before[-1].get("ub_exts") or {})
+        exp_new = ["merged.ih5"] + (["merged.ih5mf.json"] if cls is H.IH5MFRecord and src_has_mf else [])
         if new != sorted(exp_new):
-            raise Violation("C05:merge-created-unexpected-files", new, exp_new)
+            if new == ["merged.ih5", "merged.ih5mf.json"] and cls is H.IH5MFRecord:
+                # the source has no manifest; one next to the merged container would have to be the manifest of it
+                recutil.check_manifest_matches(merged_file, "C05:manifest-of-merged-plain-record")
+            else:
+                raise Violation("C05:merge-created-unexpected-files", new, exp_new)
         # merging onto an existing record (itself / the merged one) is refused and changes nothing
         for existing in ("src", "merged"):
             try:
